@@ -16,8 +16,7 @@ META = {
             "RestrictedFileName over byte classes; editing operations refuse invalid results) for the safety lemmas "
             "(an accepted file name has no separator / NUL / traversal component; root/prefix+name+suffix stays under "
             "the root) over all class strings up to length 4, and emits the oracle table class tuple -> accept; the "
-            "driver enumerates ALL byte strings up to length 3 (thorough; quick: length 2 plus a seeded sample of "
-            "length 3) through every real constructor and compares verdict and as_bytes() round trip; random strings "
+            "driver enumerates ALL byte strings up to length 3 (16.8 M, both tiers) through every real constructor and compares verdict and as_bytes() round trip; random strings "
             "up to the maximum length and edit sequences are validated by NamesTrace.tla. Domains.tla models path_for / "
             "extract_name / listing / cleanup for pairs of configurations and TLC checks RoundTrip and Isolation; two "
             "REAL domains (shared and separate roots, unrelated / extended prefixes) are driven through Node::list, "
@@ -97,17 +96,17 @@ def names_model(ctx):
 
 
 def enumerate_strings(ctx, oracle_path, oracle):
-    args = ["enumerate", "--oracle", oracle_path]
-    args += ["--len", 2, "--sample", 3000000] if ctx.quick else ["--len", 3]
+    # all 16.8 M byte strings of length <= 3 take ~25 s: exhaustive in both tiers
+    args = ["enumerate", "--oracle", oracle_path, "--len", 3]
     _, so, _ = vp.run_driver("drv-names", args, timeout=1500, env={"VERIF_SEED": ctx.seed})
     s = vp.last_json_line(so)
     ctx.coverage["enumeration"] = {k: s[k] for k in ("max_len", "sample", "strings", "evaluated", "skipped_not_utf8",
                                                      "class_tuples_covered", "mismatches", "accepted")}
-    ctx.coverage["exhaustive"] = not ctx.quick
+    ctx.coverage["exhaustive"] = s["max_len"] == 3
     ctx.evaluations += s["evaluated"]
     ctx.distinct += s["class_tuples_covered"]
     want = sum(len(oracle["classes"]) ** k for k in range(0, 4))
-    if s["class_tuples_covered"] < (want if not ctx.quick else want * 9 // 10):
+    if s["class_tuples_covered"] < want:
         raise vp.ToolError(f"vacuous enumeration: only {s['class_tuples_covered']} of {want} class tuples covered")
     for ty, n in s["accepted"].items():
         if n == 0:
